@@ -356,7 +356,7 @@ for _k, _v in _ROUND6.items():
         TEXTS[_k]["text"] = TEXTS[_k]["text"].rstrip() + _v
 
 # ---- the generic pack (rules G-…), run for every property over the packages it is anchored in ------------------------
-_GENERIC = " Generic shape rules over the anchored packages (G-FLAGLOOP, G-LOOP-ACCUM, G-ONCE-RESULT-LOST, G-ARGMAX, G-DELEGATE-ERR, G-ERRSEEN, G-STALE-ERR, G-ERRLOOP, G-SORTED-INVARIANT, G-PARALLEL-ERR-WHOLE, G-WRITE-SWALLOW, G-RANGE-KEY-AS-ELEMENT, G-MAP-APPEND-KEY, G-TRIM-CUTSET, G-FIRST-DECIDES, G-FORMAT-DATA, G-NIL-ELEMENT-BREAK, G-WALK-CUT, G-MARK-BEFORE-STATE-TEST, G-ERR-PATH-UNSEEN, G-COMPARATOR-BOTH, G-CTOR-KEEPS-PARAM, G-WITH-FLAG-NOOP, G-TWIN-PARAM-UNUSED, G-DEFER-KEEPS-ERR, G-SELF-OPERANDS, G-PURE-RESULT-DROPPED, G-LOCK-KIND-PAIRED, G-DERIVED-KEY-STORE, G-INPLACE-FILTER-PARAM, G-INDEXED-RETURN-SORTED, G-MEMO-DROPS-RESULT, G-MAP-ALIAS-MUTATED; DESIGN 3.1): zero instances expected, each with positive and negative examples in the self-test or among the stored seeds."
+_GENERIC = " Generic shape rules over the anchored packages (G-FLAGLOOP, G-LOOP-ACCUM, G-ONCE-RESULT-LOST, G-ARGMAX, G-DELEGATE-ERR, G-ERRSEEN, G-STALE-ERR, G-ERRLOOP, G-SORTED-INVARIANT, G-PARALLEL-ERR-WHOLE, G-WRITE-SWALLOW, G-RANGE-KEY-AS-ELEMENT, G-MAP-APPEND-KEY, G-TRIM-CUTSET, G-FIRST-DECIDES, G-FORMAT-DATA, G-NIL-ELEMENT-BREAK, G-WALK-CUT, G-MARK-BEFORE-STATE-TEST, G-ERR-PATH-UNSEEN, G-COMPARATOR-BOTH, G-CTOR-KEEPS-PARAM, G-WITH-FLAG-NOOP, G-TWIN-PARAM-UNUSED, G-DEFER-KEEPS-ERR, G-SELF-OPERANDS, G-PURE-RESULT-DROPPED, G-LOCK-KIND-PAIRED, G-DERIVED-KEY-STORE, G-INPLACE-FILTER-PARAM, G-INDEXED-RETURN-SORTED, G-MEMO-DROPS-RESULT, G-MAP-ALIAS-MUTATED, G-LAST-ELEMENT-SKIPPED; DESIGN 3.1): zero instances expected, each with positive and negative examples in the self-test or among the stored seeds."
 for _k in TEXTS:
     if _GENERIC.strip() not in TEXTS[_k]["text"]:
         TEXTS[_k]["text"] = TEXTS[_k]["text"].rstrip() + _GENERIC
